@@ -5,7 +5,11 @@ PROP = dict(
     technique="TLA+ spec Payload.tla (types.Payload as an object: client field set, Refinery-added fields, memoizedFields/missingFields/hasExtractedMetadata bookkeeping; "
               "actions Construct per ingestion path, ExtractMetadata, MemoizeFields, Set, Get/Exists/All/MarshalMsg/MarshalJSON) model-checked by TLC; every generated transition "
               "replayed into a real types.Payload and, after every step, the bytes of Payload.MarshalMsg (appended to a buffer the way transmit.batchedEvent.MarshalMsg frames them) "
-              "decoded by an independent msgpack decoder and compared with the model, together with Get/Exists, All() and MarshalJSON (read by encoding/json)",
+              "decoded by an independent msgpack decoder and compared with the model, together with Get/Exists, All() and MarshalJSON (read by encoding/json). "
+              "Second spec WireFields.tla: the fields ON THE WIRE of every span of a trace while it travels ingest -> collector buffer -> makeDecision (MemoizeFields + the real sampler's reads) -> "
+              "send/sendTraces decorations -> Transmission, and late spans; wire content derived from the payload bookkeeping (memoized / serialized / metadata) so that a read leaving anything behind is a "
+              "violation of the invariants TLC checks; every transition replayed on a real InMemCollector + real SamplerFactory/samplers under a fake clock, observing Payload.MarshalMsg of the live buffered "
+              "span, of every span inside the collector's decision hook (after the sampler, before any decoration) and of what Transmission.EnqueueSpan receives",
     design_ref="DESIGN.md §5 C20",
     level_text="TLC enumerates, for each ingestion path (JSON event map via jsoniter+NewPayload, JSON batch via fastjson->AppendJSONValue->UnmarshalMsgpFirstEvent, msgpack batch/peer via "
                "UnmarshalMsgpFirstEvent with the sampler's key fields, OTLP UnmarshalMsgpEventMetadataOnly, Payload.UnmarshalMsg), every subset of a 6-name universe (a sampler key field, a nested-map "
@@ -15,17 +19,35 @@ PROP = dict(
                "harness attaches typed values from a pool - the abstract fields get one value each (rotated by seed), and every event additionally carries ALL pool values as 16 constant sampler key fields (memoized at construction on the key-field paths, by MemoizeFields on the others, raw before that), so each wire type goes through pass-through and memoize+re-encode in every walk - (int64 incl. MinInt64 and int64-format small ints, uint64 incl. MaxUint64, float32, float64 incl. -Inf, bool, empty/unicode/long strings, "
                "bin, nil, arrays, nested maps with a timestamp inside, msgpack timestamp ext -1; JSON: integers beyond 2^53, exponents, -0, escapes, nested), and after every step requires: no "
                "duplicate or foreign key, every value of the same msgpack type family and bits as sent (JSON: the float64/string/bool/null/nested value encoding/json reads), bytes already "
-               "in the output buffer untouched, and Get/Exists/All/MarshalJSON in agreement with the marshalled bytes.",
+               "in the output buffer untouched, and Get/Exists/All/MarshalJSON in agreement with the marshalled bytes. "
+               "Decision pipeline (WireFields.tla): TLC enumerates one trace of a root and a child event (either order, on time or late, decided with or without its root) x field shapes over "
+               "{svc, http (nested map), http.response.status (literal dotted name), tags (array), dur} x 8 real sampler configurations (RulesBasedSampler with CheckNestedFields on/off, conditions naming "
+               "nested paths incl. one that never resolves and one named by several rules, root.-prefixed names and Fields lists, span scope, downstream Dynamic/EMADynamic samplers; DynamicSampler keyed on "
+               "a scalar, a nested map and root.-only fields; TotalThroughput; Deterministic) x decoration profiles (DryRun, AddRuleReasonToTrace, AddCountsToRoot, AddSpanCountToRoot, "
+               "AddHostMetadataToTrace, AdditionalAttributes) x ingest path (msgpack batch element with key-field memoization, Payload.UnmarshalMsgpack, JSON event map) with the verdict and the presence of "
+               "a sample key left to the environment, and checks: non-meta names on the wire = the client's at every moment (C20ExactlyClient), a buffered span is untouched, Decide changes no span's wire "
+               "content (C20ReadsArePure, action property), only additions the configuration documents (C20OnlyDocumented), nothing ever leaves the wire (C20Monotone). Replayed on the real collector: "
+               "after every step every span's marshalled bytes are decoded independently; a client field counts only with exactly the client's value (type family and bits; 16 pass-through fields of every "
+               "wire type ride along), anything else is reported as ALTERED/LOST/DUP/FOREIGN, which no specification state contains; a span changed after EnqueueSpan is reported too.",
     level_note="Structure is bounded-exhaustive, values are sampled from the pool (rotated by seed and variant); integers are compared by value (msgpack has one integer family), floats by "
                "width and bits. The input bytes are overwritten after construction (the code must have copied what it keeps). route.batchedEvents and transmit.batchedEvent framing are re-enacted "
                "in package types (same calls: AppendJSONValue + UnmarshalMsgpFirstEvent on a batch remainder; MarshalMsg appended to a prefilled buffer), not driven through HTTP. "
                "Reserved metadata names sent by the client are masked (the statement's exception). The single-event msgpack route (vmihailenco decoder into a map) is not covered. "
+               "WireFields: the verdict is the real sampler's (not predicted by the model); values of the meta.* additions are not compared (C04-C06 do), only their names; the walks share one collector "
+               "(its Start allocates a 100,000-slot queue): each walk uses a fresh trace id and installs its configuration through the collector's reload path; stress-relief and ejection paths, span events/links "
+               "and msgpack timestamps are not in this model (Payload stage / C05 / C16). "
                "Known deviation ts-reencoded (a msgpack timestamp in a memoized sampler key field leaves as tinylib's private extension 5) is reported as KNOWN-FINDING.",
     assumptions=["bounded: 6 names, construction + <=3 mutating calls (model only: 5), values from a pool of 16 msgpack / 16 JSON values + nested map + timestamp",
-                 "application-defined msgpack extension types out of scope (statement)"],
+                 "application-defined msgpack extension types out of scope (statement)",
+                 "WireFields bounded: one trace, 2 events (3 in the model-checking-only configuration), 5 client names + 4 path names, 8 sampler configurations, 4 (quick) / 8 (thorough) / 16 (model checking only) decoration profiles"],
     stages=[
         dict(kind="walk", name="Payload", module="Payload", pkg="types", test="TestVerifC20Payload", harness=["types/c20_payload_test.go"],
              cfg={"quick": "MC_Payload.cfg", "thorough": "MC_Payload_big.cfg"}, budget={"quick": 40, "thorough": 240}, maxwalk=16),
         dict(kind="tlc", name="PayloadIdeal", module="Payload", cfg={"quick": None, "thorough": "MC_Payload_ideal.cfg"}, workers=8),
+        dict(kind="walk", name="WireFieldsQ", module="MCWireFieldsQ", pkg="collect", test="TestVerifC20Wire", harness=["collect/c20_wire_test.go"],
+             cfg="MC_WireFields_q.cfg", budget=20, maxwalk=8, tiers=("quick",)),
+        dict(kind="walk", name="WireFieldsT", module="MCWireFieldsT", pkg="collect", test="TestVerifC20Wire", harness=["collect/c20_wire_test.go"],
+             cfg="MC_WireFields_t.cfg", budget=150, maxwalk=8, tiers=("thorough",)),
+        dict(kind="tlc", name="WireFieldsMC", module="MCWireFieldsMC", cfg={"quick": None, "thorough": "MC_WireFields_mc.cfg"}, workers=8),
     ],
 )
